@@ -135,7 +135,7 @@ const SPECS: &[PropSpec] = &[
         id: "C08",
         engine: "routersim",
         level: "fault_enumeration",
-        runs_quick: 1200,
+        runs_quick: 800,
         runs_thorough: 30000,
         rule: "one evaluation = one seeded history (persistent subscriber with 1-3 non-overlapping filters at QoS 0-2, 1-3 publishers, ack lag, 30-150 scheduler steps) re-executed for EVERY step index x 4 ways of ending the subscriber's connection (DISCONNECT packet, link failure, router-initiated close after a protocol error, takeover), followed by up to 3 reconnect cycles with seeded clean flags; crash_points_enumerated counts the re-executions; distinct = hash over all re-executions; non-trivial = forwards were delivered in some re-execution",
         state_measure: "per router step: hash over connections of (tracker status, scheduled?, #tracked, #parked, inflight bucket, outgoing-buffer bucket, incoming bucket) + groups + graveyard size + channel bucket",
@@ -143,6 +143,24 @@ const SPECS: &[PropSpec] = &[
         stubbed: ROUTER_STUB,
         assumptions: ROUTER_ASSUME,
         expected_probes: &["session_saved_with_unacked_forwards", "forward_judged_at_close"],
+    },
+    PropSpec {
+        id: "C05",
+        engine: "streamsim",
+        level: "exploration",
+        runs_quick: 500_000,
+        runs_thorough: 10_000_000,
+        rule: "one run = one decoder (rumqttc v4 / rumqttc v5 / rumqttd V4 / rumqttd V5), one max-packet-size from {2,10,100,1024,10240,268435455} (rumqttc v5 also None), one byte stream (1-8 valid frames from the matching-version encoders; the same with 1-3 mutations: bit flip, byte overwrite, remaining-length edit, truncation, type-nibble rewrite, slice duplicate/delete/insert; 0-40 random bytes; fixed-header boundary case: any first byte x remaining-length encodings {0,1,2,127,128,16383,16384,2097151,2097152,268435455, ff ff ff ff 01} with short / exact / exact-1 / exact+k body), one EOF offset (end or seeded prefix) and one chunking (whole, byte-by-byte, random cuts, cuts inside the fixed header / length bytes / one byte before frame end) with seeded Pending injections; distinct = trace hash; non-trivial = at least 2 chunks and the one-shot reference produced a packet or a malformed-packet error",
+        state_measure: "(decoder, reference terminal condition clean/need-more/malformed, packets decoded (cap 15), chunks (cap 255)) per run",
+        real: &["rumqttc::mqttbytes::v4::{Packet::read, Codec} behind tokio_util::codec::Framed", "rumqttc::v5::mqttbytes::v5::{Packet::read, Codec} behind tokio_util::codec::Framed", "rumqttd::protocol::v4::V4 and v5::V5 (Protocol::read_mut)", "rumqttd::link::network::Network::{read, read_bytes, readv}", "the four encoders (Packet::write, Protocol::write) as sources of valid frames", "tokio current-thread runtime (paused clock)"],
+        stubbed: &["the socket: in-memory AsyncRead/AsyncWrite delivering the stream in seeded chunks with seeded Poll::Pending, then EOF; writes are discarded"],
+        assumptions: &[
+            "the reference packet sequence is the decoder's own one-shot entry point applied to the whole delivered prefix; each of its calls is checked against an independent fixed-header parser (1 type byte + variable byte integer of at most 4 bytes)",
+            "the configured maximum is compared with the declared remaining length (the statement's wording), not with the whole frame length",
+            "packet equality is the decoders' own PartialEq; error values are compared only as error / no error",
+            "release semantics: debug assertions off, overflow checks off",
+        ],
+        expected_probes: &["dec_rumqttc_v4", "dec_rumqttc_v5", "dec_rumqttd_v4", "dec_rumqttd_v5", "valid_stream", "mutated_stream", "random_stream", "boundary_header_stream", "one_byte_chunking", "structural_chunking", "eof_mid_frame", "eof_before_stream_end", "ref_malformed", "ref_need_more", "ref_clean", "ref_packets", "oversize_frame_seen", "wrap_eof", "wrap_error", "wrap_packets", "pending_injected", "decoded_connect", "decoded_connack", "decoded_publish", "decoded_puback", "decoded_pubrec", "decoded_pubrel", "decoded_pubcomp", "decoded_subscribe", "decoded_suback", "decoded_unsubscribe", "decoded_unsuback", "decoded_pingreq", "decoded_pingresp", "decoded_disconnect"],
     },
     PropSpec {
     id: "C13",
@@ -171,6 +189,7 @@ pub fn find(id: &str) -> Option<&'static PropSpec> {
 
 pub fn runner(id: &'static str, tier: Tier) -> Box<RunFn> {
     match id {
+        "C05" => Box::new(move |ch, rep| engines::streamsim::run(tier, ch, rep)),
         "C13" => Box::new(move |ch, rep| engines::logsim::run(tier, ch, rep)),
         "C01" => Box::new(move |ch, rep| engines::routersim::run(engines::routersim::P::C01, tier, ch, rep)),
         "C03" => Box::new(move |ch, rep| engines::routersim::run(engines::routersim::P::C03, tier, ch, rep)),
